@@ -6,7 +6,7 @@ k-mer is one abstract bit-vector); the mask ladders reverse_by_twos/lower_of_two
 constructors/renderers (from_bytes, from_ascii, to_string, kmers_from_*) feed those primitives in lockstep.
 This decides the bit-level behaviour of the listed operations, by abstract interpretation of the monomorphic MIR;
 nothing is executed and no k-mer value is enumerated."""
-from .. import lemmas, structural
+from .. import lemmas, structural, dt_seq
 from . import common
 
 THOROUGH_FACTS = True
@@ -19,4 +19,4 @@ def run(F, rep):
     common.kmer_floor(F, rep)
     lemmas.ladder_lemmas(F, rep)
     common.run_kmer_lemmas(F, rep, {"len", "empty", "get", "set", "slice", "rc", "ext", "rank", "ham", "atgc"})
-    structural.kmer_default_methods(F, rep)
+    dt_seq.kmer_default_tables(F, rep, "C10.defaults")
